@@ -12,7 +12,8 @@ RULE = ('random systems on Line/Square/Cube with 1..4 unknowns (scalar or vector
         'argument orders), grad(u).n, on a union of 1..6 faces, with numeric/symbolic right-hand sides and sometimes '
         'preset position / index_component; a malformed stream (conditions on non-trial functions, 2*u, u+v, grad(u), '
         'Dn(u), traces, two normals, indexed with normal, non-condition objects, wrong container types, lhs/rhs of '
-        'the wrong form class, non-function trials/tests).  One case = one EssentialBC(...) or Equation(...) call; '
+        'the wrong form class, non-function trials/tests); multi-step histories (one pool of EssentialBC objects, the first on a '
+        'single face, used for 2-3 equations with permuted / extended trial lists, then repositioned by the caller).  One case = one EssentialBC(...) or Equation(...) call; '
         'non-trivial = a union is expanded, a position > 0 is assigned or a refusal is raised; distinct by request line')
 ASSUMPTIONS = [
     'sympy equality of functions (class and name) is what `variable in trials` / `trials.index` use; the '
